@@ -11,7 +11,9 @@ CONSTANTS
   AtomicAlloc = TRUE
   IdDecode = "strict"
   IdVocab = "full"
+  KindShift = 0
+  NullResult = "ok"
 INIT TraceInit
 NEXT TraceNext
-INVARIANTS TypeOK Matched NoInventedResponse UniqueIds PendingIsMap PendingOwned IdTypePreserved DispatchedToOwner PeerCallsEchoed FramesNeverInterleave MutexOK ReaderNeverBlocks PendingExact Accept
+INVARIANTS TypeOK Matched NoInventedResponse UniqueIds PendingIsMap PendingOwned IdTypePreserved DispatchedToOwner PeerCallsEchoed FramesNeverInterleave MutexOK ReaderNeverBlocks ReaderAlive PendingExact Accept
 CHECK_DEADLOCK FALSE
